@@ -254,6 +254,20 @@ func (P) Generate(g *hx.Gen) {
 	for k := 0; k < nE; k++ {
 		genLongLived(g, k)
 	}
+	for k := 0; k < g.Pick(40, 400); k++ {
+		genSvc(g)
+	}
+	for k := 0; k < g.Pick(1, 6); k++ {
+		genBoundary(g, k+1)
+	}
+	nG := g.Pick(2, 14)
+	for k := 0; k < nG; k++ {
+		genPrune(g, k)
+	}
+	nF := g.Pick(6, 60)
+	for k := 0; k < nF; k++ {
+		genCatchup(g, k)
+	}
 	nD := g.Pick(300, 3000)
 	for k := 0; k < nD; k++ {
 		genMalformed(g)
